@@ -21,6 +21,19 @@ def build(vacuity=False):
         "proto.address_to_socket": {"self_ty": "SocketAddr", "trait": "TryFrom<Address>", "name": "try_from"},
     }
     items = [{"key": k, "file": SRC, "kind": "impl_fn", "rules": RULES, "anchors": vxlib.anchors_for(fnc[k], vacuity), **v} for k, v in sels.items()]
+    G = "passage-adapters/grpc/src/"
+    AD_RULES = ["deasync", "attrs", "log", "error_cause", "iter_loop", "opt_map", "into_from", "closure_wild", "try_desugar", "generics"]
+    items += [
+        {"key": "grpc.GrpcStrategyAdapter", "file": G + "strategy_adapter.rs", "kind": "struct", "name": "GrpcStrategyAdapter", "rules": ["attrs", "generics"],
+         "subst": {"StrategyClient<Channel>": "StrategyClient"}},
+        {"key": "grpc.GrpcDiscoveryAdapter", "file": G + "discovery_adapter.rs", "kind": "struct", "name": "GrpcDiscoveryAdapter", "rules": ["attrs", "generics"],
+         "subst": {"DiscoveryClient<Channel>": "DiscoveryClient"}},
+        {"key": "grpc.select", "file": G + "strategy_adapter.rs", "kind": "impl_fn", "self_ty": "GrpcStrategyAdapter", "trait": "StrategyAdapter", "name": "select",
+         "rules": AD_RULES, "collect_types": ["Vec<WireTarget>"], "anchors": vxlib.anchors_for(fnc["grpc.select"], vacuity)},
+        {"key": "grpc.discover", "file": G + "discovery_adapter.rs", "kind": "impl_fn", "self_ty": "GrpcDiscoveryAdapter", "trait": "DiscoveryAdapter", "name": "discover",
+         "rules": AD_RULES, "subst": {"passage_adapters::Result<Vec<Target>>": "Result<Vec<passage_adapters::Target>, Error>"},
+         "collect_types": ["Result<Vec<passage_adapters::Target>, Error>"], "anchors": vxlib.anchors_for(fnc["grpc.discover"], vacuity)},
+    ]
     ex = vxlib.run_vx(items)
     u = vxlib.Unit(NAME)
     u.default_props = ["C04"]
@@ -43,5 +56,19 @@ def build(vacuity=False):
     u.add_fn(ex["proto.address_to_socket"], fnc["proto.address_to_socket"], vacuity=vacuity, indent="        ")
     u.raw("    }\n    impl TryFrom<Target> for passage_adapters::Target {\n        type Error = passage_adapters::Error;\n")
     u.add_fn(ex["proto.target_from_wire"], fnc["proto.target_from_wire"], vacuity=vacuity, indent="        ")
+    u.raw("    }\n}\n")
+    # the two adapters that make the service calls: `Target` here is the router's type (as in their `use` lines)
+    u.raw("pub mod strategy_adapter {\n    use super::*;\n    use super::passage_adapters::{Error, Target};\n    use super::Target as WireTarget;\n")
+    u.modules.append("strategy_adapter")
+    u.add_item_text(ex["grpc.GrpcStrategyAdapter"])
+    u.raw("    impl GrpcStrategyAdapter {\n")
+    ex["grpc.select"]["vis"] = "pub"
+    u.add_fn(ex["grpc.select"], fnc["grpc.select"], vacuity=vacuity, indent="        ")
+    u.raw("    }\n}\npub mod discovery_adapter {\n    use super::*;\n    use super::passage_adapters::{Error, Target};\n")
+    u.modules.append("discovery_adapter")
+    u.add_item_text(ex["grpc.GrpcDiscoveryAdapter"])
+    u.raw("    impl GrpcDiscoveryAdapter {\n")
+    ex["grpc.discover"]["vis"] = "pub"
+    u.add_fn(ex["grpc.discover"], fnc["grpc.discover"], vacuity=vacuity, indent="        ")
     u.raw("    }\n}\n} // verus!\nfn main() {}\n")
     return u
